@@ -43,22 +43,23 @@ def main():
     rc_without, out_without = sh(f"/venv/bin/python {demo}", wt, env)
     ran.append(f"demo without change: exit {rc_without}")
     assert rc_with != 0 and rc_without == 0, f"demo does not discriminate: with={rc_with} without={rc_without}\n{out_with[-800:]}\n{out_without[-800:]}"
-    # run the checks against /repo with the patch applied
-    rc, out = sh(f"git -C /repo status --short")
-    assert out.strip() == "", "/repo is dirty"
-    rc, out = sh(f"git -C /repo apply {patch}")
-    assert rc == 0, f"patch does not apply to /repo: {out}"
+    # run the checks against a scratch copy of /repo's HEAD with the patch applied (VERIF_REPO), never /repo itself
+    scratch = f"/tmp/wt_apply_{os.getpid()}"
+    sh(f"git -C /repo worktree remove --force {scratch}")
+    rc, out = sh(f"git -C /repo worktree add --detach {scratch} HEAD")
+    assert rc == 0, out
     caught = {}
     try:
+        rc, out = sh(f"git apply {patch}", scratch)
+        assert rc == 0, f"patch does not apply to /repo HEAD: {out}"
+        env2 = dict(os.environ, VERIF_REPO=scratch, VERIF_EVIDENCE_DIR=f"{scratch}/.evidence")
         for c in checks:
-            rc, out = sh(f"./check {c} --tier quick", "/verif")
+            rc, out = sh(f"./check {c} --tier quick", "/verif", env2)
             keys = [l.strip() for l in out.splitlines() if l.startswith("  " + c + ":")]
             caught[c] = {"exit": rc, "violations": [k[:300] for k in keys][:6]}
-            ran.append(f"./check {c} --tier quick with change: exit {rc}")
+            ran.append(f"VERIF_REPO=<scratch copy with the change> ./check {c} --tier quick: exit {rc}")
     finally:
-        sh("git -C /repo checkout -- .")
-    # checks rewrote evidence on a mutated tree: restore committed evidence
-    sh("git checkout -- evidence 2>/dev/null", "/verif")
+        sh(f"git -C /repo worktree remove --force {scratch}")
     d = f"/verif/seeded/{sid}"
     os.makedirs(d, exist_ok=True)
     shutil.copy(patch, f"{d}/patch.diff")
